@@ -89,6 +89,13 @@ inductive Fail where
   | recursion
   deriving DecidableEq, Repr
 
+instance : DecidableEq (Except Fail Nat) := fun a b =>
+  match a, b with
+  | .ok x, .ok y => if h : x = y then isTrue (by rw [h]) else isFalse (fun e => h (by cases e; rfl))
+  | .error x, .error y => if h : x = y then isTrue (by rw [h]) else isFalse (fun e => h (by cases e; rfl))
+  | .ok _, .error _ => isFalse (fun e => by cases e)
+  | .error _, .ok _ => isFalse (fun e => by cases e)
+
 /-- the limits, as parameters (instantiated with the constants regenerated from `parser.rs`) -/
 structure Limits where
   maxRecursion : Nat
